@@ -3,6 +3,7 @@ package bitstr
 import (
 	"bytes"
 	"math/bits"
+	"reflect"
 	"unsafe"
 
 	"github.com/openacid/low/bitmap"
@@ -130,7 +131,16 @@ func CmpUpto(a, b []byte) int {
 //
 // Since 0.1.20
 func StrCmpUpto(a string, b []byte) int {
-	return CmpUpto(*(*[]byte)(unsafe.Pointer(&a)), b)
+	// View the string's bytes as a []byte without copying. A string header has
+	// no capacity word, so the slice header is filled in field by field instead
+	// of reinterpreting the string header (which reads whatever lies after it
+	// as the capacity).
+	var bs []byte
+	sh := (*reflect.SliceHeader)(unsafe.Pointer(&bs))
+	sh.Data = (*reflect.StringHeader)(unsafe.Pointer(&a)).Data
+	sh.Len = len(a)
+	sh.Cap = len(a)
+	return CmpUpto(bs, b)
 }
 
 // Len returns the number of payload bits in a bitStr.
